@@ -10,6 +10,11 @@ package iplddecoders
 //   the fast decoder accepts the reference encoding of v, what it returns is observed (exported fields and
 //   Get*/Has* accessors) exactly like v and like the reference decoder's result, and no decoder of another
 //   kind accepts those bytes.
+// The property quantifies over conforming nodes only, so the verdict on a conforming node must not depend on what the
+// fast decoders were handed BEFORE it: between the decodes of conforming nodes the harness calls the fast decoders on
+// inputs that are NOT one complete conforming node (truncations, trailing bytes, mutated bytes, nodes of another kind,
+// malformed CBOR; their own outcome is C12's subject and is not judged here), on the same goroutine and from several
+// goroutines, and every conforming node is decoded again at the end of the run (see "decode history" below).
 
 import (
 	"bytes"
@@ -23,6 +28,7 @@ import (
 	"sort"
 	"strconv"
 	"strings"
+	"sync"
 	"testing"
 
 	"github.com/ipfs/go-cid"
@@ -637,6 +643,15 @@ type vc11Replay struct {
 	Hex   string `json:"hex,omitempty"`
 	Links int    `json:"links,omitempty"` // generated long-list input: an Entry with that many transaction links
 	Note  string `json:"note,omitempty"`
+	// decode history: the inputs (not conforming nodes) handed to the fast decoders right before this node, in order
+	Before []vc11Prev `json:"decoded_before,omitempty"`
+}
+
+// vc11Prev: one fast-decoder call on an input that is not a conforming node of the decoder's kind.
+type vc11Prev struct {
+	Decoder string `json:"decoder"` // Decode<Decoder>, or "Any"
+	Class   string `json:"class"`
+	Hex     string `json:"hex"`
 }
 
 func vc11Trunc(s string) string {
@@ -648,26 +663,39 @@ func vc11Trunc(s string) string {
 
 // vc11Check runs the three decoders on raw and evaluates the property. value is the typed value the bytes were
 // made from (nil for fixture nodes). Returns the fast decoder's class and observation for the case file.
-func vc11Check(rep *vh.Report, kind int, value any, raw []byte, origin string) (class int, obs string) {
+func vc11Check(rep *vh.Report, kind int, value any, raw []byte, origin string, before func(kind int) []vc11Prev) (class int, obs string, ref *vc11Conf) {
 	kn := vc11KindNames[kind]
 	rp := vc11Replay{Kind: kn, Hex: hex.EncodeToString(raw), Note: origin}
 	if len(raw) > 4096 {
 		rp.Hex = hex.EncodeToString(raw[:4096]) + "…(truncated; regenerate with the seed)"
 	}
 	cres, cclass, cmsg := vc11Run(vc11Classic(kind), raw)
+	if cclass == 0 {
+		// the reference observation without the per-case byte-string names: what every later decode of this node
+		// (after other inputs, from other goroutines) is compared with
+		saved := vc11T
+		vc11T = nil
+		cp := vc11ObsNode(cres)
+		vc11T = saved
+		ref = &vc11Conf{kind: kind, raw: raw, term: cp.term, extra: cp.extra, origin: origin}
+	}
+	if before != nil {
+		// decode history: fast-decoder calls on inputs that are not conforming nodes, right before the fast decode
+		rp.Before = before(kind)
+	}
 	fres, fclass, fmsg := vc11Run(vc11Fast(kind), raw)
 	if cclass != 0 {
 		// the reference decoder does not accept what the reference encoder wrote: not a statement about the fast decoder
 		rep.Fail("reference-rejects:"+kn, "schema-driven decoder fails on a node written by the schema-driven encoder: "+vc11Trunc(cmsg), rp)
-		return fclass, ""
+		return fclass, "", nil
 	}
 	if fclass == 2 {
-		rep.Fail("fast-panics-on-conforming:"+kn, "panic: "+vc11Trunc(fmsg), rp)
-		return fclass, ""
+		rep.Fail("fast-panics-on-conforming:"+kn, "panic: "+vc11Trunc(fmsg)+vc11HistNote(rp.Before), rp)
+		return fclass, "", ref
 	}
 	if fclass == 1 {
-		rep.Fail("fast-rejects-conforming:"+kn, "fast decoder error on a node the schema-driven decoder accepts: "+vc11Trunc(fmsg), rp)
-		return fclass, ""
+		rep.Fail("fast-rejects-conforming:"+kn, "fast decoder error on a node the schema-driven decoder accepts: "+vc11Trunc(fmsg)+vc11HistNote(rp.Before), rp)
+		return fclass, "", ref
 	}
 	co, fo := vc11ObsNode(cres), vc11ObsNode(fres)
 	for _, p := range fo.problem {
@@ -680,7 +708,7 @@ func vc11Check(rep *vh.Report, kind int, value any, raw []byte, origin string) (
 		rep.Fail("fast-classic-disagree:"+kn, "the ok flag of DataFrame.GetNext differs\n fast:    "+fo.extra+"\n classic: "+co.extra, rp)
 	}
 	if co.term != fo.term {
-		rep.Fail("fast-classic-disagree:"+kn, "observations differ\n fast:    "+vc11Trunc(fo.term)+"\n classic: "+vc11Trunc(co.term), rp)
+		rep.Fail("fast-classic-disagree:"+kn, "observations differ"+vc11HistNote(rp.Before)+"\n fast:    "+vc11Trunc(fo.term)+"\n classic: "+vc11Trunc(co.term), rp)
 	}
 	if value != nil {
 		vo := vc11ObsNode(value)
@@ -708,7 +736,7 @@ func vc11Check(rep *vh.Report, kind int, value any, raw []byte, origin string) (
 	} else if vc11KindOfValue(ares) != kind {
 		rep.Fail("decodeany-wrong-kind:"+kn, fmt.Sprintf("DecodeAny returned %T", ares), rp)
 	}
-	return 0, fo.term
+	return 0, fo.term, ref
 }
 
 // vc11Fixtures extracts every package-level `name = []byte{...}` of the package's *_test.go files (the embedded
@@ -818,6 +846,298 @@ func vc11LongList(rep *vh.Report, n int) {
 	}
 }
 
+// ---------------------------------------------------------------- decode history
+// C11 speaks about conforming nodes: each one is accepted and observed as the reference decoder says - whatever the
+// fast decoders were handed before. The inputs generated here are NOT conforming nodes of the decoder they are given to
+// (so they need no case; what happens on them is C12's subject): they only form the history of the next conforming node.
+
+// vc11Conf: a conforming node together with the reference decoder's observation (byte strings printed in full).
+type vc11Conf struct {
+	kind        int
+	raw         []byte
+	term, extra string
+	origin      string
+	key         string // the key of the node's rep.Case
+}
+
+func vc11HistNote(before []vc11Prev) string {
+	if len(before) == 0 {
+		return ""
+	}
+	last := before[len(before)-1]
+	return fmt.Sprintf(" [right after %d fast-decoder call(s) on inputs that are not conforming nodes; the last one: Decode%s on a %s input of %d bytes]",
+		len(before), last.Decoder, last.Class, len(last.Hex)/2)
+}
+
+// vc11Junk makes inputs that are not one complete conforming node of the decoder's kind, from conforming donor nodes.
+type vc11Junk struct {
+	rng    *vh.Rng
+	donors [7][][]byte // conforming nodes (reference encoder), read-only once built
+	rep    *vh.Report
+}
+
+func vc11NewJunk(seed uint64, rep *vh.Report) *vc11Junk {
+	j := &vc11Junk{rng: vh.NewRng(seed), rep: rep}
+	g := &vc11Gen{rng: vh.NewRng(seed ^ 0x5bd1e995), rep: vh.NewReport("C11", "donors", "")} // counts of the donors are not reported
+	for kind := 0; kind < 7; kind++ {
+		for tries := 0; len(j.donors[kind]) < 10 && tries < 200; tries++ {
+			raw, err := vc11RefEncode(g.node(kind), kind)
+			if err == nil && len(raw) >= 4 {
+				j.donors[kind] = append(j.donors[kind], raw)
+			}
+		}
+	}
+	return j
+}
+
+// fork: the same donors with an own random stream (for another goroutine).
+func (j *vc11Junk) fork(seed uint64) *vc11Junk {
+	return &vc11Junk{rng: vh.NewRng(seed), donors: j.donors, rep: j.rep}
+}
+
+func (j *vc11Junk) donor(kind int) []byte {
+	if len(j.donors[kind]) == 0 {
+		return []byte{0x82, 0x00, 0x00} // never the case with a working reference encoder
+	}
+	return j.donors[kind][j.rng.Intn(len(j.donors[kind]))]
+}
+
+var vc11Malformed = [][]byte{
+	{},                 // nothing at all
+	{0x9f},             // indefinite-length array that never ends
+	{0x9f, 0x01, 0x02}, // the same with elements
+	{0xff},             // a break outside an indefinite-length item
+	{0x1c},             // reserved additional information
+	{0x9b, 0x00, 0x00, 0x00, 0x01, 0x00, 0x00, 0x00, 0x00}, // array header announcing 2^32 elements
+	{0x5a, 0xff, 0xff, 0xff, 0xff, 0x00},                   // byte string announcing 2^32-1 bytes
+	{0x86, 0x00, 0x5f, 0x41, 0x00},                         // unfinished indefinite-length byte string inside a tuple
+	{0xd8, 0x2a},                                           // a tag without content
+	{0x84, 0x01, 0xf9, 0x00},                               // tuple cut inside a half-precision float
+}
+
+// one makes one input for the decoder of kind decKind (nextKind = the kind of the conforming node decoded next).
+func (j *vc11Junk) one(nextKind int) (decKind int, class string, data []byte) {
+	rng := j.rng
+	donorKind := nextKind
+	if rng.Intn(3) == 0 {
+		donorKind = rng.Intn(7)
+	}
+	d := j.donor(donorKind)
+	// which decoder: that of the next conforming node, that of the donor, or any
+	switch rng.Intn(4) {
+	case 0:
+		decKind = donorKind
+	case 1:
+		decKind = rng.Intn(7)
+	default:
+		decKind = nextKind
+	}
+	switch rng.Intn(12) {
+	case 0, 1, 2, 3: // truncated conforming node, every class of cut position
+		var cut int
+		switch rng.Intn(8) {
+		case 0:
+			cut, class = 0, "truncated:empty"
+		case 1:
+			cut, class = 1, "truncated:after-tuple-header"
+		case 2:
+			cut, class = 2, "truncated:after-kind"
+		case 3:
+			cut, class = len(d)-1, "truncated:last-byte-missing"
+		case 4:
+			cut, class = len(d)-2, "truncated:two-bytes-missing"
+		case 5:
+			cut, class = len(d)/2, "truncated:half"
+		default:
+			cut, class = 1+rng.Intn(len(d)-1), "truncated:random"
+		}
+		if cut < 0 {
+			cut = 0
+		}
+		data = append([]byte(nil), d[:cut]...)
+	case 4, 5, 6: // a conforming node followed by extra bytes
+		var extra []byte
+		switch rng.Intn(6) {
+		case 0:
+			extra, class = j.donor(donorKind), "trailing:another-node-of-the-kind"
+		case 1:
+			extra, class = j.donor(rng.Intn(7)), "trailing:a-node-of-any-kind"
+		case 2:
+			extra, class = []byte{0x00}, "trailing:one-byte"
+		case 3:
+			extra, class = []byte{0xff}, "trailing:break-byte"
+		case 4:
+			extra, class = d[:1+rng.Intn(len(d)-1)], "trailing:truncated-node"
+		default:
+			extra, class = rng.Bytes(1+rng.Intn(40)), "trailing:random-bytes"
+		}
+		data = append(append([]byte(nil), d...), extra...)
+	case 7, 8: // byte-mutated node
+		data = append([]byte(nil), d...)
+		switch rng.Intn(4) {
+		case 0:
+			class = "mutated:byte-inserted"
+			at := rng.Intn(len(data) + 1)
+			data = append(data[:at], append([]byte{byte(rng.U64())}, data[at:]...)...)
+		case 1:
+			class = "mutated:byte-deleted"
+			at := rng.Intn(len(data))
+			data = append(data[:at], data[at+1:]...)
+		default:
+			class = "mutated:bytes-changed"
+			for n := 1 + rng.Intn(3); n > 0; n-- {
+				data[rng.Intn(len(data))] ^= byte(1 + rng.Intn(255))
+			}
+		}
+	case 9: // a complete conforming node of another kind than the decoder's
+		class = "other-kind"
+		if decKind == donorKind {
+			decKind = (donorKind + 1 + rng.Intn(6)) % 7
+		}
+		data = d
+	case 10:
+		class = "malformed-cbor"
+		data = vc11Malformed[rng.Intn(len(vc11Malformed))]
+	default:
+		class = "random-bytes"
+		data = rng.Bytes(rng.Intn(64))
+	}
+	return decKind, class, data
+}
+
+// feed calls fast decoders on n generated inputs and returns what was fed (for the replay file).
+func (j *vc11Junk) feed(nextKind, n int) []vc11Prev {
+	var out []vc11Prev
+	for i := 0; i < n; i++ {
+		decKind, class, data := j.one(nextKind)
+		out = append(out, j.call(decKind, class, data))
+	}
+	return out
+}
+
+func (j *vc11Junk) call(decKind int, class string, data []byte) vc11Prev {
+	name := vc11KindNames[decKind]
+	f := vc11Fast(decKind)
+	if j.rng.Intn(16) == 0 {
+		name, f = "Any", func(b []byte) (any, error) { return DecodeAny(b) }
+	}
+	_, cls, _ := vc11Run(f, data)
+	if j.rep != nil {
+		j.rep.Count("history input=" + class)
+		j.rep.Count("history input outcome=" + [...]string{"accepted", "error", "panic"}[cls])
+	}
+	h := data
+	if len(h) > 2048 {
+		h = h[:2048]
+	}
+	return vc11Prev{Decoder: name, Class: class, Hex: hex.EncodeToString(h)}
+}
+
+// prefixes: every proper prefix of a (short) conforming node, one call each.
+func (j *vc11Junk) prefixes(nextKind int) []vc11Prev {
+	d := j.donor(nextKind)
+	if len(d) > 160 {
+		d = j.donor(int(KindEpoch))
+	}
+	if len(d) > 400 {
+		d = d[:400]
+	}
+	var last vc11Prev
+	for cut := 0; cut < len(d); cut++ {
+		last = j.call(nextKind, "truncated:every-prefix", d[:cut])
+	}
+	return []vc11Prev{last}
+}
+
+// before: the history put in front of one conforming node: nothing (a third of the nodes: the node right after
+// another conforming node), one input, a few, or every prefix of a node.
+func (j *vc11Junk) before(nextKind int) []vc11Prev {
+	switch j.rng.Intn(12) {
+	case 0, 1, 2, 3:
+		j.rep.Count("history=none")
+		return nil
+	case 4, 5, 6, 7:
+		j.rep.Count("history=1 input")
+		return j.feed(nextKind, 1)
+	case 8, 9:
+		j.rep.Count("history=2-3 inputs")
+		return j.feed(nextKind, 2+j.rng.Intn(2))
+	case 10:
+		j.rep.Count("history=8 inputs")
+		return j.feed(nextKind, 8)
+	default:
+		j.rep.Count("history=every prefix")
+		return j.prefixes(nextKind)
+	}
+}
+
+// vc11Again decodes a conforming node with the fast decoder once more and compares the observation with the reference
+// decoder's (vc11T must be nil: byte strings are printed in full). Safe to call from several goroutines.
+func vc11Again(rep *vh.Report, c *vc11Conf, when string, before []vc11Prev) {
+	kn := vc11KindNames[c.kind]
+	rp := vc11Replay{Kind: kn, Hex: hex.EncodeToString(c.raw), Note: c.origin + "; " + when, Before: before}
+	if len(c.raw) > 4096 {
+		rp.Hex = hex.EncodeToString(c.raw[:4096]) + "…(truncated; regenerate with the seed)"
+	}
+	fres, fclass, fmsg := vc11Run(vc11Fast(c.kind), c.raw)
+	switch fclass {
+	case 2:
+		rep.Fail("fast-panics-on-conforming:"+kn, when+": panic: "+vc11Trunc(fmsg)+vc11HistNote(before), rp)
+		return
+	case 1:
+		rep.Fail("fast-rejects-conforming:"+kn, when+": fast decoder error on a node the schema-driven decoder accepts: "+vc11Trunc(fmsg)+vc11HistNote(before), rp)
+		return
+	}
+	fo := vc11ObsNode(fres)
+	for _, p := range fo.problem {
+		rep.Fail("accessor-inconsistent:"+kn, when+": on the fast decoder's result: "+p, rp)
+	}
+	if fo.term != c.term || fo.extra != c.extra {
+		rep.Fail("fast-classic-disagree:"+kn, when+": observations differ"+vc11HistNote(before)+"\n fast:    "+vc11Trunc(fo.term)+" "+fo.extra+"\n classic: "+vc11Trunc(c.term)+" "+c.extra, rp)
+	}
+}
+
+// vc11History: (a) several goroutines decode the conforming nodes at the same time, each with inputs that are not
+// conforming nodes in between; (b) every conforming node is decoded once more, on one goroutine, after everything else.
+func vc11History(rep *vh.Report, confs []*vc11Conf, junk *vc11Junk, seed uint64) {
+	vc11T = nil // observations with byte strings in full; only read from here on
+	workers := 4
+	if vh.Thorough() {
+		workers = 8
+	}
+	var wg sync.WaitGroup
+	for w := 0; w < workers; w++ {
+		w := w
+		wg.Add(1)
+		go func() {
+			defer wg.Done()
+			j := junk.fork(seed + 1000 + uint64(w))
+			order := j.rng.Perm(len(confs))
+			// every worker decodes its own share plus a share all workers have in common
+			for n, i := range order {
+				if i%workers != w && n%8 != 0 {
+					continue
+				}
+				c := confs[i]
+				var before []vc11Prev
+				if j.rng.Intn(3) != 0 {
+					before = j.feed(c.kind, 1+j.rng.Intn(2))
+				}
+				rep.Case(c.key, len(c.raw) > 8)
+				rep.Count("decoded again from one of several goroutines")
+				vc11Again(rep, c, fmt.Sprintf("decoded again from goroutine %d of %d", w, workers), before)
+			}
+		}()
+	}
+	wg.Wait()
+	for _, i := range junk.rng.Perm(len(confs)) {
+		c := confs[i]
+		rep.Case(c.key, len(c.raw) > 8)
+		rep.Count("decoded again at the end of the run")
+		vc11Again(rep, c, "decoded again at the end of the run", nil)
+	}
+}
+
 // ---------------------------------------------------------------- the test
 
 func TestVerif_C11(t *testing.T) {
@@ -826,10 +1146,12 @@ func TestVerif_C11(t *testing.T) {
 		perKind = 2000
 	}
 	rep := vh.NewReport("C11", "decoders",
-		"random typed values of every kind (each optional field omitted / null / present, empty .. 257-element lists, five CID shapes, edge and random 64-bit integers, 0 .. 1200-byte strings) encoded by bindnode+dag-cbor, plus the fixture nodes of the package tests, plus Entries with 131072 and 131073 links; oracle: fast decoder accepts, is observed like the value and like the schema-driven decoder, no other kind accepts; a case is non-trivial when the node has more than 8 bytes; distinct by bytes")
+		"random typed values of every kind (each optional field omitted / null / present, empty .. 257-element lists, five CID shapes, edge and random 64-bit integers, 0 .. 1200-byte strings) encoded by bindnode+dag-cbor, plus the fixture nodes of the package tests, plus Entries with 131072 and 131073 links; oracle: fast decoder accepts, is observed like the value and like the schema-driven decoder, no other kind accepts; between the decodes of conforming nodes the fast decoders are called on inputs that are not conforming nodes (truncations at every class of cut position and every prefix, trailing bytes / nodes, inserted / deleted / changed bytes, nodes of another kind, malformed CBOR, random bytes: none, 1, 2-3, 8 or all prefixes before a node), every conforming node is decoded again from 4 (thorough 8) goroutines with such inputs in between and once more at the end of the run, each time with the same oracle; a case is non-trivial when the node has more than 8 bytes; distinct by bytes")
 	cases := vh.NewCases("cases_c11", []string{"YF.Cbor", "YF.C11_Nodes", "YF.C11_Check"}, "C11_Check.case", "C11_Check.check")
 	cases.Preamble("From Coq Require Import Uint63.")
 	g := &vc11Gen{rng: vh.NewRng(vh.Seed()), rep: rep}
+	junk := vc11NewJunk(vh.Seed()+7777, rep)
+	var confs []*vc11Conf
 
 	if rp := vh.Replay(); rp != "" {
 		vc11DoReplay(t, rep, rp)
@@ -856,7 +1178,11 @@ func TestVerif_C11(t *testing.T) {
 			}
 			rep.Case(hex.EncodeToString(raw), len(raw) > 8)
 			rep.Count("kind=" + vc11KindNames[kind])
-			class, obs := vc11Check(rep, kind, v, raw, fmt.Sprintf("generated %s #%d (seed %d)", vc11KindNames[kind], i, vh.Seed()))
+			class, obs, ref := vc11Check(rep, kind, v, raw, fmt.Sprintf("generated %s #%d (seed %d)", vc11KindNames[kind], i, vh.Seed()), junk.before)
+			if ref != nil {
+				ref.key = hex.EncodeToString(raw)
+				confs = append(confs, ref)
+			}
 			if obs != "" {
 				cases.Add(vc11Wrap(fmt.Sprintf("(%d%%Z, Some %s, %s, %d%%N, %s)", kind, vc11CoqNode(v), vc11Pack(raw), class, obs)))
 			}
@@ -895,7 +1221,11 @@ func TestVerif_C11(t *testing.T) {
 		vc11NewCase()
 		rep.Case("fixture:"+n, true)
 		rep.Count("fixture=" + vc11KindNames[int(k)])
-		class, obs := vc11Check(rep, int(k), nil, raw, "fixture "+n)
+		class, obs, ref := vc11Check(rep, int(k), nil, raw, "fixture "+n, junk.before)
+		if ref != nil {
+			ref.key = "fixture:" + n
+			confs = append(confs, ref)
+		}
 		if obs != "" {
 			cases.Add(vc11Wrap(fmt.Sprintf("(%d%%Z, None, %s, %d%%N, %s)", int(k), vc11Pack(raw), class, obs)))
 		}
@@ -908,6 +1238,9 @@ func TestVerif_C11(t *testing.T) {
 	if vh.Thorough() {
 		vc11LongList(rep, 1000000)
 	}
+
+	// every conforming node once more: from several goroutines with other inputs in between, then at the end of the run
+	vc11History(rep, confs, junk, vh.Seed())
 
 	if err := cases.Write(); err != nil {
 		t.Fatal(err)
@@ -946,7 +1279,24 @@ func vc11DoReplay(t *testing.T, rep *vh.Report, path string) {
 		for k, n := range vc11KindNames {
 			if n == r.Kind {
 				rep.Case("replay:"+r.Hex, true)
-				vc11Check(rep, k, nil, b, "replay")
+				before := r.Before
+				vc11Check(rep, k, nil, b, "replay", func(int) []vc11Prev {
+					// the recorded history of the node: the same inputs to the same decoders, in order
+					for _, p := range before {
+						pb, err := hex.DecodeString(p.Hex)
+						if err != nil {
+							continue
+						}
+						f := func(b []byte) (any, error) { return DecodeAny(b) }
+						for dk, dn := range vc11KindNames {
+							if dn == p.Decoder {
+								f = vc11Fast(dk)
+							}
+						}
+						vc11Run(f, pb)
+					}
+					return before
+				})
 			}
 		}
 	}
